@@ -1,7 +1,7 @@
 From Coq Require Import List ZArith Bool Lia.
 From TM Require Import Util.IntSet.
 Import ListNotations.
-Open Scope Z_scope.
+Local Open Scope Z_scope.
 
 Definition sorted (l : list Z) : Prop := sortedb l = true.
 Definition wf (s : intset) : Prop := sorted (elems s).
